@@ -157,10 +157,11 @@ func evalC07(c *Ctx, cs *Case) {
 	// explicit abs, default via chdir, relative ./target/../target, a target that does not exist yet,
 	// 4: "../target" from a working directory that was entered through a symbolic link ($PWD names
 	// the link), 5: "<link>/../target" where the link leads to a directory with another parent
-	targetForms := []int{0, 1, 2, 3, 4, 5}
+	// 6: a target directory whose own name ends in a blank ("out ")
+	targetForms := []int{0, 1, 2, 3, 4, 5, 6}
 	if cs.Kind != "one-hostile" || c.Quick() {
 		extChoices = []int{extChoices[r.Intn(3)]}
-		targetForms = []int{r.Intn(6)}
+		targetForms = []int{r.Intn(7)}
 	}
 	for _, rtIdx := range []int{0, 1, 2, 3} {
 		rt := mkdirRoutes[rtIdx]
@@ -182,6 +183,9 @@ func evalC07(c *Ctx, cs *Case) {
 	}
 	if cs.Idx%4 == 1 {
 		c07Repoint(c, cs, fkey)
+	}
+	if cs.Idx%4 == 2 {
+		c07DotRoot(c, cs, fkey)
 	}
 	if c.WantSample(cs.Kind) {
 		c.Sample(cs.Kind, map[string]any{"forest": fkey, "doc": doc, "must_reject": anyInvalid})
@@ -278,7 +282,12 @@ func c07One(c *Ctx, cs *Case, f model.Forest, doc, fkey string, rt fsRoute, dry,
 	// has two readings (the kernel follows the link before "..", path cleaning removes "link/.."
 	// first); either reading is accepted, as long as ALL of the call's entries follow the same one
 	altRel, altHasRoots := "", false
+	rel := j.Rel
 	switch tf {
+	case 6:
+		os.Mkdir(j.Target+"/out ", 0o755)
+		os.Mkdir(j.Target+"/out", 0o755) // (the neighbour a trimmed spelling would name)
+		rel = j.Rel + "/out "
 	case 4:
 		os.Symlink("l2/l3/l4/sentinel-a", filepath.Join(j.Root, "l1", "via-link"))
 	case 5:
@@ -312,6 +321,8 @@ func c07One(c *Ctx, cs *Case, f model.Forest, doc, fkey string, rt fsRoute, dry,
 		target = "../target"
 	case 5:
 		target = deep + "/up-link/../target"
+	case 6:
+		target = j.Target + "/out "
 	}
 	opts := fsOpts(target, ExtLists[ei], ei != 0, dry, massive, false)
 	// a stray output-encoding option (meaningless for mkdir) must not open a way out of the target
@@ -392,7 +403,7 @@ func c07One(c *Ctx, cs *Case, f model.Forest, doc, fkey string, rt fsRoute, dry,
 	}
 	after := j.Snap()
 	diff := mon.Diff(before, after)
-	inside, outside := mon.Under(diff, j.Rel)
+	inside, outside := mon.Under(diff, rel)
 	if altRel != "" && len(outside) > 0 {
 		if in2, out2 := mon.Under(diff, altRel); len(out2) == 0 && !altHasRoots {
 			inside, outside = in2, nil
@@ -442,5 +453,56 @@ func c07One(c *Ctx, cs *Case, f model.Forest, doc, fkey string, rt fsRoute, dry,
 	}
 	if anyInvalid {
 		c.Count("must_reject_cases", 1)
+	}
+}
+
+
+// c07DotRoot: a forest one of whose roots is "." (it names the target itself, which exists), next
+// to ordinary roots, into a target that already holds symbolic links named like the CHILDREN of
+// "." and leading out of the target (to a directory outside; dangling to a file outside).
+// Whether the call refuses (the root exists) or not, nothing outside the target may change.
+func c07DotRoot(c *Ctx, cs *Case, fkey string) {
+	dot := &model.Node{Name: ".", Kids: []*model.Node{
+		{Name: "esc", Kids: []*model.Node{{Name: "inner", Kids: []*model.Node{{Name: "deep.gz"}}}}},
+		{Name: "made.gz"},
+	}}
+	other := &model.Node{Name: "other", Kids: []*model.Node{{Name: "x"}}}
+	for vi, f := range []model.Forest{{dot, other}, {other, dot}, {dot}, {other, dot, &model.Node{Name: "third"}}} {
+		for _, massive := range []bool{false, true} {
+			for rtIdx := 0; rtIdx < 2; rtIdx++ {
+				rt := mkdirRoutes[rtIdx]
+				j, err := mon.NewJail(c.TmpDir, true)
+				if err != nil {
+					return
+				}
+				os.Symlink("../sentinel-a", filepath.Join(j.Target, "esc"))
+				os.Symlink("../target-sibling/made-through-a-link", filepath.Join(j.Target, "made.gz"))
+				before := j.Snap()
+				mode := map[bool]string{true: "massive", false: "simple"}[massive]
+				cs.Entry = rt.Name + "[real," + mode + ",a root named . beside others, links named like its children]"
+				base := runtime.NumGoroutine()
+				opts := func() []gtree.Option { return fsOpts(j.Target, []string{".gz"}, true, false, massive, false) }
+				var errs []string
+				if rt.FromRoot {
+					for _, root := range f {
+						errs = append(errs, errStr(mkdirCall(rt, "", root, opts()).Err))
+					}
+				} else {
+					errs = append(errs, errStr(mkdirCall(rt, gen.Spell(f, gen.Canonical), nil, opts()).Err))
+				}
+				if massive {
+					c07Quiet.Quiesce(base)
+				}
+				diff := mon.Diff(before, j.Snap())
+				_, outside := mon.Under(diff, j.Rel)
+				j.Remove()
+				c.Eval(gen.HashString(fkey+"\x00dotroot"+cs.Entry+strconv.Itoa(vi)), true)
+				c.Count("dot_root_forests", 1)
+				if len(outside) > 0 {
+					c.Violation(cs, "escape.outside-target", "dot-root", map[string]any{"forest": f.String(), "errors": errs, "outside": outside})
+				}
+				cs.Entry = ""
+			}
+		}
 	}
 }
